@@ -368,12 +368,12 @@ fn part_b_case(i: u64, l: &mut Local) {
 pub fn run(mut run: Run) -> ! {
     crate::core::silence_panics();
     let quick = run.quick();
-    run.rule = "part A: every Exp tree with <= 2 operator nodes (thorough: full leaf alphabet {0,1,-0,2,-1,0.5,x,y,b}, and size 3 over a reduced alphabet) over every constructor (BinOp x9, UnOp x2, Abs, Not, Xor, Implies, Iff, n-ary And/Or/Min/Max with 0-3 operands) is rewritten with simplify, flatten and both compositions and evaluated at 72 assignments by an exact reference evaluator; part B: 7 model templates x 6 constants x 12 spellings of the coefficient (incl. named and API-supplied constants) are compiled and compared; distinct = tree debug text / reference twin source; non-trivial = defined at some assignment / compiles".into();
+    run.rule = "part A: every Exp tree with <= 2 operator nodes over the full leaf alphabet {0,1,-0,2,-1,0.5,x,y,b} (thorough adds every tree with 3 operator nodes over a reduced alphabet) over every constructor (BinOp x9, UnOp x2, Abs, Not, Xor, Implies, Iff, n-ary And/Or/Min/Max with 0-3 operands) is rewritten with simplify, flatten and both compositions and evaluated at 72 assignments by an exact reference evaluator; part B: 7 model templates x 6 constants x 12 spellings of the coefficient (incl. named and API-supplied constants) are compiled and compared; distinct = tree debug text / reference twin source; non-trivial = defined at some assignment / compiles".into();
     run.assume("reference semantics: strict exact evaluation, truthy iff non-zero, division by zero undefined; a division is 'diagnosable' when its denominator contains a variable or is a constant zero");
     run.assume("twin models compared row for row, else by exact equivalence (same optimum/status for the objective and +-e_i on the declared variables)");
     let envs = Arc::new(assignments());
     let mut memo: Vec<Arc<Vec<Exp>>> = vec![];
-    let full = !quick;
+    let full = true;
     let max_n = 2;
     for n in 0..=max_n {
         let ts = trees(n, full, &mut memo);
